@@ -159,7 +159,24 @@ def quantile_ctor(m):
     return [p]
 
 
+def other_cfgs(ctx, fn):
+    """thorough tier: the same rules on --no-default-features (cfg C) and --features std (cfg D):
+    the any(std, libm) gates must only remove code"""
+    if ctx.tier != "thorough":
+        return
+    for cfg in ("C", "D"):
+        db = ctx.db(cfg)
+        fn(db, cfg)
+
+
 def c16(ctx):
+    def extra(db, cfg):
+        for path, kind, kw in EST_KINDS:
+            e = Est(db, path)
+            if e.exists() and path in ("moments::Mean", "moments::Variance", "Moments4", "m5::M5", "covariance::Covariance", "minmax::Min",
+                                       "weighted_mean::WeightedMeanWithError"):
+                R.r_sentinel(ctx, db, e, kind, N=kw.get("N"), weighted=kw.get("weighted", False))
+    other_cfgs(ctx, extra)
     db = ctx.db("B")
     cells = 0
     types = 0
@@ -195,6 +212,14 @@ MERGE_TYPES = ["moments::Mean", "moments::Variance", "moments::Skewness", "momen
 
 
 def c11(ctx):
+    def extra(db, cfg):
+        for t in MERGE_TYPES:
+            e = Est(db, t)
+            if e.exists() and e.merge:
+                R.r_ident_merge(ctx, db, e, assume=R.nonnan_state if t.startswith("minmax") else None)
+                if e.m("len", None):
+                    R.r_count(ctx, db, e, cfg)
+    other_cfgs(ctx, extra)
     db = ctx.db("B")
     n = 0
     for t in MERGE_TYPES:
@@ -258,7 +283,10 @@ def c07(ctx):
     db, e, roles = quantile_est(ctx)
     if e is None:
         return
-    grid = [k / 8.0 for k in range(0, 9)] if ctx.tier == "quick" else sorted(set([k / 16.0 for k in range(0, 17)] + [k / 3.0 for k in range(4)] + [0.1, 0.3, 0.7, 0.9, 1e-9, 1 - 1e-9]))
+    near = [b + d for b in (0.25, 0.5, 0.75) for d in (-1e-10, 1e-10)]
+    grid = sorted(set([k / 8.0 for k in range(0, 9)] + near)) if ctx.tier == "quick" else sorted(set(
+        [k / 16.0 for k in range(0, 17)] + [k / 3.0 for k in range(4)] + [0.1, 0.3, 0.7, 0.9, 1e-9, 1 - 1e-9] + near +
+        [b + d for b in (0.25, 0.5, 0.75) for d in (-1e-6, 1e-6, -1e-13, 1e-13)]))
     n = Q.r_small_quantile(ctx, db, e, roles, grid)
     ctx.floor("(n, p) grid cases of the small-sample quantile", n, 36)
 
